@@ -171,6 +171,28 @@ def run(ctx):
             else:
                 ctx.note(f"known finding {e['id']}: witness no longer fails")
 
+    for e in core.load_known("C05"):
+        w = e.get("witness")
+        if e.get("status") == "open" and isinstance(w, dict) and w.get("kind") == "alias-doubling":
+            # analysis time of a chain of n type aliases that each mention their predecessor twice, at two sizes four apart:
+            # linear work gives a ratio near 1, the doubling gives about 2^4
+            import time as _t
+
+            def chain(n):
+                return tg.b("type T0 = int;\n" + "".join(f"type T{i} = {{ a: T{i - 1}, b: T{i - 1} }};\n" for i in range(1, n + 1))
+                            + f"fn f(x: T{n}) {{ let y = x; let z = y.a; }}\nfn main() {{ }}\n")
+            times = []
+            for n in w["n"]:
+                t0 = _t.time()
+                tg.run_total([{"main": chain(n), "mods": {}}], limit=30)
+                times.append(_t.time() - t0)
+            # the first size only measures the fixed cost of starting the isolated worker
+            ratio = (times[2] - times[0]) / max(times[1] - times[0], 0.03)
+            if ratio > 4:
+                ctx.known(e["id"], e.get("what", "") + f" [now, above the fixed cost: n={w['n'][1]} {max(times[1] - times[0], 0):.2f}s, n={w['n'][2]} {times[2] - times[0]:.2f}s]")
+            else:
+                ctx.note(f"known finding {e['id']}: analysis time no longer doubles per alias level (ratio {ratio:.1f})")
+
     # 2. regression witnesses of the findings fixed for this property
     wit = [dict(c, stream="witness:" + fid) for fid, c, _ in tg.WITNESSES if fid not in open_ids]
     res = tg.run_total(wit, limit=10, stop_after_dead=100, chunk=1)
